@@ -94,20 +94,37 @@ def _compositions(total, parts):
 
 
 def render(directives):
-    """Interleave code lines: one `integer :: v_k` before, between and after."""
+    """Interleave code lines: one `integer :: v_k` before, between and after.  A directive that contains a newline is
+    a backslash-continued one and takes several lines; `@` in it stands for the number of the line it is on (the
+    `integer :: w_k` probes written on continuation lines)."""
     lines = ["program pp", "integer :: v_1"]
     for d in directives:
-        lines.append(d)
+        for part in d.split("\n"):
+            lines.append(part.replace("@", str(len(lines))))
         lines.append(f"integer :: v_{len(lines)}")
     lines.append("end program pp")
     return lines
 
 
+_PROBE = re.compile(r"\s*integer :: ([vw]_(\d+))")
+
+
+def probes(lines):
+    """(between, continuation): the names of the probe declarations between the directives (`v_k`, flush left) and of
+    those on the continuation lines of directives (`w_k`), each as {name: line index}."""
+    v, w = {}, {}
+    for k, ln in enumerate(lines):
+        m = _PROBE.match(ln)
+        if m:
+            (v if ln.startswith("integer") else w)[m.group(1)] = k
+    return v, w
+
+
 # ----------------------------------------------------------------- oracle
-def impl_run(lines, defs):
+def impl_run(lines, defs, path="/nonexistent/pp.F90"):
     from fortls.parsers.internal.parser import FortranFile
 
-    f = FortranFile("/nonexistent/pp.F90")
+    f = FortranFile(path)
     f.set_contents(list(lines))
     ast = f.parse(pp_defs=dict(defs), include_dirs=set())
     names = {v.name.lower() for v in ast.variable_list}
@@ -144,13 +161,15 @@ def features(directives):
         "paren_defined": any("(defined" in d for d in directives),
         "define": any(d.startswith("#define") for d in directives),
         "undef": any(d.startswith("#undef") for d in directives),
+        "continued": any("\\\n" in d for d in directives),
+        "continued_directives": ",".join(sorted({d.split()[0].lstrip("#").split("(")[0] for d in directives if "\\\n" in d})),
     }
 
 
 def _max_depth(directives):
     d = m = 0
     for x in directives:
-        if x.startswith(("#if", "#ifdef", "#ifndef")):
+        if x.startswith("#if"):
             d += 1
             m = max(m, d)
         elif x == "#endif":
@@ -158,37 +177,55 @@ def _max_depth(directives):
     return m
 
 
-def cond_case(job, acc: Acc, init_sets=None, family="conditionals", extra_tags=None):
+def judge(lines, defs, ref_active, ref_defs):
+    """Compare the implementation with the reference outcome: None or (obs, expected, observed)."""
+    names, got_defs, _, skipped = impl_run(lines, defs)
+    v, w = probes(lines)
+    want = {n for n, k in v.items() if ref_active[k]}      # a continuation line of a directive is never code
+    region_got = {n for n, k in v.items() if k not in skipped}
+    got = names & (set(v) | set(w))
+    if region_got != want:
+        return "active_lines", sorted(want), sorted(region_got)
+    if got != want:
+        return "indexed_declarations", sorted(want), sorted(got)
+    if not table_equal(ref_defs, got_defs):
+        return "macro_table", ref_defs, got_defs
+    return None
+
+
+# Skeletons of at most this many directives are also replayed when they define a name a second time with another
+# body (cpp replaces the definition); longer ones are left out as before (they are 60 % of the family).
+REDEFINE_MAX = 3
+
+
+def cond_case(job, acc: Acc, init_sets=None, family="conditionals", extra_tags=None, redefine=None):
     directives = job
     lines = render(directives)
+    if redefine is None:
+        redefine = len(directives) <= REDEFINE_MAX
     for defs in (INIT_SETS if init_sets is None else init_sets):
+        events = []
         try:
-            ref_active, ref_defs = refcpp.run(lines, defs)
+            ref_active, ref_defs = refcpp.run(lines, defs, redefine=redefine, events=events)
         except refcpp.Invalid:
             acc.count("reference_undefined")
             continue
         acc.count("paths_replayed")
         acc.count("transitions", len(directives))
+        if events:
+            acc.count("paths_with_redefinition")
         acc.states.add(core.h64((tuple(sorted(ref_defs.items())), tuple(ref_active[-3:]))))
-        names, got_defs, _, skipped = impl_run(lines, defs)
-        want = {f"v_{k}" for k, ln in enumerate(lines) if ln.startswith("integer :: v_") and ref_active[k]}
-        all_v = {f"v_{k}" for k, ln in enumerate(lines) if ln.startswith("integer :: v_")}
-        got = names & all_v
-        region_got = {f"v_{k}" for k, ln in enumerate(lines) if ln.startswith("integer :: v_") and k not in skipped}
-        nontrivial = 0 < len(want) < len(all_v)
+        v, _ = probes(lines)
+        want = {n for n, k in v.items() if ref_active[k]}
+        nontrivial = 0 < len(want) < len(v)
         acc.case(nontrivial_key=(directives, tuple(sorted(defs.items()))) if nontrivial else None,
                  outcome=(tuple(sorted(want)), tuple(sorted(ref_defs))))
-        obs = None
-        if region_got != want:
-            obs, exp, seen = "active_lines", sorted(want), sorted(region_got)
-        elif got != want:
-            obs, exp, seen = "indexed_declarations", sorted(want), sorted(got)
-        elif not table_equal(ref_defs, got_defs):
-            obs, exp, seen = "macro_table", ref_defs, got_defs
-        if obs:
+        bad = judge(lines, defs, ref_active, ref_defs)
+        if bad:
+            obs, exp, seen = bad
             acc.violation(Violation(
-                family, {"family": family, "obs": obs, **features(directives), **(extra_tags or {})},
-                {"lines": lines, "defs": defs}, exp, seen, what=f"{list(directives)} defs={defs}"))
+                family, {"family": family, "obs": obs, **features(directives), "redefines": bool(events), **(extra_tags or {})},
+                {"lines": lines, "defs": defs, "redefine": redefine}, exp, seen, what=f"{list(directives)} defs={defs}"))
     if len(acc.samples) < 2:
         acc.sample({"skeleton": list(directives), "init_defs": INIT_SETS[2]})
 
@@ -235,6 +272,131 @@ def value_case(job, acc: Acc):
             acc.count("agrees_with_gnu_cpp")
     cond_case(tuple(d), acc, init_sets=inits, family="expression_values",
               extra_tags={"value_tokens": len(val.split()), "via": via, "through_second_macro": through})
+
+
+# --------------------------------------------------------- directive forms
+# The ways of *writing* a directive that cpp accepts: a second #define of a defined name (of a directive, of pp_defs)
+# replaces the body; a directive that ends in a backslash goes on on the next line - the condition of #if / #elif, the
+# body of a #define with and without a blank before the backslash, object- and function-like, and what follows the name
+# of an #undef (ignored).  Continuation lines that would be declarations if they were read as code carry a probe
+# `integer :: w_k`.  All sequences over this alphabet like in `conditionals`, each also compared with GNU cpp (active
+# lines and final table).
+FORMS = Alphabet(
+    ["#define A 1", "#define A 2", "#undef A",
+     "#define A \\\n 2", "#define A\\\n 2", "#define B\\\n integer :: w_@", "#define F(x)\\\n integer :: w_@(x)",
+     "#undef A \\\n integer :: w_@"],
+    ["#if A == 2", "#ifdef B", "#if defined(A) && \\\n defined(B)", "#if defined(F) || \\\n A == 1", "#if A == \\\n 2",
+     "#if !defined(B) && \\\n defined(A) && \\\n A > 1"],
+    ["#if defined(B) || \\\n A == 1", "#ifndef A"],
+    ["A == 1", "defined(B) && \\\n A == 2", "!defined(A) || \\\n 0"], max_elif=1)
+FORMS_INIT = [{}, {"A": "1"}, {"A": "2", "B": "1"}]
+
+
+GNU_FORMS_MAX = 3   # sequences of at most this many directives are also given to GNU cpp (two processes per path)
+
+
+def forms_case(job, acc: Acc):
+    cond_case(job, acc, init_sets=FORMS_INIT, family="directive_forms", redefine=True)
+    if len(job) > GNU_FORMS_MAX:
+        return
+    lines = render(job)
+    for defs in FORMS_INIT:
+        try:
+            ref_active, ref_defs = refcpp.run(lines, defs)
+        except refcpp.Invalid:
+            continue
+        both = refcpp.gnu_cpp_run(lines, defs)
+        if both is None:
+            acc.count("gnu_cpp_rejects")
+            continue
+        gnu, table = both
+        code = list(probes(lines)[0].values())
+        if [ref_active[k] for k in code] != [gnu[k] for k in code] or refcpp.normal_table(ref_defs) != table:
+            raise core.HarnessError(f"refcpp disagrees with GNU cpp on {lines} defs={defs}: "
+                                    f"{[ref_active[k] for k in code]} {ref_defs} vs {[gnu[k] for k in code]} {table}")
+        acc.count("agrees_with_gnu_cpp")
+
+
+# ----------------------------------------------------------- include paths
+# `#include "path"`: the path may name directories; it is taken relative to the directory of the file the directive
+# is written in (cpp's first and, without -I, only place).  Headers in the directory of the source, one and two
+# directories below; every header defines a name of its own, two of them include a neighbour.
+PATH_HEADERS = {
+    "top.h": ["#define TOP 1"],
+    "sub/d.h": ["#define D 1", '#include "e.h"'],
+    "sub/e.h": ["#define E 1"],
+    "sub/deep/f.h": ["#define F 1", '#include "../e.h"', '#include "../../top.h"'],
+}
+PATH_SPELLINGS = ["top.h", "./top.h", "sub/d.h", "./sub/d.h", "sub/e.h", "sub/../top.h", "sub/deep/f.h", "sub/deep/../d.h"]
+PATH_WRITINGS = ['#include "%s"', '#include"%s"', '#  include  "%s"']
+PATH_PLACES = ["top", "active", "inactive"]
+
+
+def include_path_jobs():
+    for wr in PATH_WRITINGS:
+        for place in PATH_PLACES:
+            for a in PATH_SPELLINGS:
+                yield (wr, place, (a,))
+                if wr == PATH_WRITINGS[0]:
+                    for b in PATH_SPELLINGS:
+                        yield (wr, place, (a, b))
+
+
+def include_path_lines(job):
+    wr, place, spellings = job
+    lines = ["program pinc"]
+    for sp in spellings:
+        if place != "top":
+            lines.append("#if 1" if place == "active" else "#if 0")
+        lines.append(wr % sp)
+        if place != "top":
+            lines.append("#endif")
+    for name in ("TOP", "D", "E", "F"):
+        lines += [f"#ifdef {name}", f"integer :: v_{len(lines) + 1}", "#endif"]
+    lines.append("end program pinc")
+    return lines
+
+
+def _header_dir(tag, headers):
+    """A directory of this worker's scratch space that holds `headers` (written once per process)."""
+    sc = worker_scratch("c08")
+    if not os.path.exists(os.path.join(sc.path, tag, ".written")):
+        for n, hl in headers.items():
+            sc.write(f"{tag}/{n}", "\n".join(hl) + "\n")
+        sc.write(f"{tag}/.written", "")
+    return os.path.join(sc.path, tag)
+
+
+def include_path_case(job, acc: Acc):
+    lines = include_path_lines(job)
+    try:
+        ref_active, ref_defs = refcpp.run(lines, {}, PATH_HEADERS)
+    except refcpp.Invalid:
+        acc.count("reference_undefined")
+        return
+    root = _header_dir("paths", PATH_HEADERS)
+    gnu = refcpp.gnu_cpp_active(lines, {}, cwd=root)
+    v, _ = probes(lines)
+    if gnu is None or any(gnu[k] != ref_active[k] for k in v.values()):
+        raise core.HarnessError(f"refcpp disagrees with GNU cpp on {lines}: {ref_active} vs {gnu}")
+    acc.count("agrees_with_gnu_cpp")
+    names, got_defs, _, _ = impl_run(lines, {}, os.path.join(root, "main.F90"))
+    want = {n for n, k in v.items() if ref_active[k]}
+    got = names & set(v)
+    acc.case(nontrivial_key=job if 0 < len(want) < len(v) else None, outcome=(tuple(sorted(want)), tuple(sorted(ref_defs))))
+    obs = None
+    if got != want:
+        obs, exp, seen = "indexed_declarations", sorted(want), sorted(got)
+    elif not table_equal(ref_defs, got_defs):
+        obs, exp, seen = "macro_table", ref_defs, dict(got_defs)
+    if obs:
+        sp = job[2]
+        acc.violation(Violation("include_paths", {
+            "family": "include_paths", "obs": obs, "directory_in_path": any("/" in x.replace("./", "", 1) or ".." in x for x in sp),
+            "dotdot": any(".." in x for x in sp), "place": job[1], "writing": PATH_WRITINGS.index(job[0]), "twice": len(sp) > 1},
+            {"lines": lines, "headers": PATH_HEADERS, "job": [job[0], job[1], list(sp)]}, exp, seen, what=f"{lines[1:1 + 3 * len(sp)]}"))
+    if len(acc.samples) < 1 and len(job[2]) > 1:
+        acc.sample({"main": lines, "headers": PATH_HEADERS})
 
 
 # ---------------------------------------------------------------- includes
@@ -343,29 +505,63 @@ def subst_case(job, acc: Acc):
     _subst_check("substitution", kind, body, lines, 1, acc)
 
 
-def _subst_check(family, kind, body, lines, use_line, acc, extra_tags=None):
+def _subst_check(family, kind, body, lines, use_line, acc, extra_tags=None, headers=None, tag="subst"):
+    """`headers` (path -> lines): the text `#include`s them; they are written next to the source file."""
     try:
-        _, ref_defs = refcpp.run(lines, {})
+        _, ref_defs = refcpp.run(lines, {}, headers)
     except refcpp.Invalid:
         acc.count("reference_undefined")
         return
     # definitions in force at the use line = definitions made above it
-    _, defs_at = refcpp.run(lines[:use_line], {})
+    _, defs_at = refcpp.run(lines[:use_line], {}, headers)
     want = refcpp.substitute(lines[use_line], defs_at)
     exc = None
+    path = os.path.join(_header_dir(tag, headers), "main.F90") if headers else "/nonexistent/pp.F90"
     try:
-        _, _, pp, _ = impl_run(["program p"] + lines + ["end program p"], {})
+        _, _, pp, _ = impl_run(["program p"] + lines + ["end program p"], {}, path)
         got = pp[1 + use_line]
     except Exception as e:  # noqa
         got, exc = None, type(e).__name__
-    acc.case(nontrivial_key=(family, kind, body) if want != lines[use_line] else None, outcome=want)
+    key = (family, kind, body) + ((tuple(sorted(extra_tags.items())),) if extra_tags else ())
+    acc.case(nontrivial_key=key if want != lines[use_line] else None, outcome=want)
     if got != want:
         tags = {"family": family, "kind": kind, "obs": "exception:" + exc if exc else "replacement_differs",
                 "backslash": "\\" in body, "quote": "'" in body or '"' in body, **(extra_tags or {})}
-        acc.violation(Violation(family, tags, {"lines": lines, "use_line": use_line}, want, got,
-                                what=f"{lines}"))
+        case = {"lines": lines, "use_line": use_line}
+        if headers:
+            case.update(headers=headers, tag=tag)
+        acc.violation(Violation(family, tags, case, want, got, what=f"{lines}"))
     if len(acc.samples) < 2:
         acc.sample({"macro_lines": lines, "expected": want})
+
+
+# A name defined a second time without #undef (cpp replaces the definition), and a name re-defined by an #include'd
+# header: before / after as object- or function-like macro, used or not before the second definition (a use makes
+# the implementation compile the macro), the header with and without #undef, in the source's directory or below it,
+# included directly or through a second header.
+_MAC = {"object": ("#define MAC %s", "a = MAC"), "function1": ("#define MAC(x) x+%s", "a = MAC(c)")}
+REDEF_HEADERS = {}
+for _k2 in ("object", "function1"):
+    for _style in ("undef_define", "define", "undef"):
+        _hl = (["#undef MAC"] if "undef" in _style else []) + ([_MAC[_k2][0] % "2"] if "define" in _style else [])
+        for _dir in ("", "sub/"):
+            REDEF_HEADERS[f"{_dir}r_{_k2}_{_style}.h"] = _hl
+            REDEF_HEADERS[f"{_dir}n_{_k2}_{_style}.h"] = [f'#include "r_{_k2}_{_style}.h"']
+
+
+def redefinition_cases():
+    for k1 in ("object", "function1"):
+        for k2 in ("object", "function1"):
+            for used in (False, True):
+                first = [_MAC[k1][0] % "1"] + ([_MAC[k1][1]] if used else [])
+                tags = {"before": k1, "after": k2, "used_before": used}
+                yield ("redefine_without_undef", k2, first + [_MAC[k2][0] % "2", "q = MAC(a1)"], None, {**tags, "via": "same_file"})
+                for style in ("undef_define", "define", "undef"):
+                    for d in ("", "sub/"):
+                        for nested in (False, True):
+                            h = f"{d}{'n' if nested else 'r'}_{k2}_{style}.h"
+                            yield ("redefine_in_header", k2, first + [f'#include "{h}"', "q = MAC(a1)"], REDEF_HEADERS,
+                                   {**tags, "via": "header", "header": style, "directory_in_path": bool(d), "nested": nested})
 
 
 def subfamily_cases():
@@ -394,9 +590,32 @@ def subfamily_cases():
     ]
 
 
+def _redefinition_table(fam, kind, lines, headers, tags, acc):
+    """The macro table at the end of a `redefinition_cases` text."""
+    try:
+        _, ref_defs = refcpp.run(lines, {}, headers)
+    except refcpp.Invalid:
+        return
+    path = os.path.join(_header_dir("redef", headers), "main.F90") if headers else "/nonexistent/pp.F90"
+    try:
+        _, got_defs, _, _ = impl_run(["program p"] + lines + ["end program p"], {}, path)
+    except Exception:  # noqa  (reported by the comparison of the text)
+        return
+    acc.case(nontrivial_key=None, outcome=tuple(sorted(ref_defs)))
+    if not table_equal(ref_defs, got_defs):
+        case = {"lines": lines, "use_line": len(lines) - 1, "table": True}
+        if headers:
+            case.update(headers=headers, tag="redef")
+        acc.violation(Violation("substitution_" + fam, {"family": "substitution_" + fam, "kind": kind, "obs": "macro_table", **tags},
+                                case, ref_defs, dict(got_defs), what=f"{lines}"))
+
+
 def subfamilies(acc: Acc):
     for fam, kind, body, lines, use in subfamily_cases():
         _subst_check("substitution_" + fam, kind, body, lines, use, acc)
+    for fam, kind, lines, headers, tags in redefinition_cases():
+        _subst_check("substitution_" + fam, kind, "2", lines, len(lines) - 1, acc, extra_tags=tags, headers=headers, tag="redef")
+        _redefinition_table(fam, kind, lines, headers, tags, acc)
     # actual arguments that spell the name of a formal parameter: all parameters are replaced at once, the text of an
     # argument is not searched for the other parameters
     actuals = ["y", "x", "1", "y+x", "x*y", "f(y)"]
@@ -449,19 +668,38 @@ def gnu_cross_check(ctx, jobs, acc_name="refcpp_vs_gnu_cpp"):
 def main(ctx):
     q = ctx.quick
     nmax, depth = (5, 2) if q else (6, 2)
+    global REDEFINE_MAX, GNU_FORMS_MAX
+    REDEFINE_MAX, GNU_FORMS_MAX = (3, 3) if q else (4, 4)
     ctx.rule = ("conditionals: every directive skeleton of <=N directives (#define/#undef of A,B with 4 bodies; #if over 21 "
                 "expressions, #ifdef/#ifndef; up to 2 #elif, optional #else; nesting <=2) x 7 initial definition sets, a code "
-                "line between all directives; reference refcpp. substitution: every macro body of <=L atoms over 16 atoms as "
+                "line between all directives; reference refcpp. directive_forms: the same over an alphabet of redefinitions "
+                "and backslash-continued #if/#elif/#define/#undef. include_paths: header paths with directories x ways of "
+                "writing the directive x place. substitution: every macro body of <=L atoms over 16 atoms as "
                 "object-like, 1- and 2-parameter function-like macro used once. Non-trivial = some but not all code lines "
                 "active / the use line changes; distinct by (skeleton, definitions) / body.")
-    ctx.assumptions = ["inputs for which the reference C preprocessor is undefined (empty #if expression, redefinition with a "
-                       "different body, unbalanced conditionals) are excluded",
-                       "`#define N` without body is compared by name only (fortls stores 'True', cpp stores '')"]
+    ctx.assumptions = ["inputs for which the reference C preprocessor is undefined (empty #if expression, unbalanced "
+                       "conditionals, a header that is not found) are excluded",
+                       "a second #define with a different body replaces the first (GNU cpp warns and goes on); in `conditionals` "
+                       "such skeletons are replayed up to %d directives and left out above (cost), `directive_forms` has them "
+                       "at every size" % REDEFINE_MAX,
+                       "`#define N` without body is compared by name only (fortls stores 'True', cpp stores '')",
+                       "a continued #define has its whole body on the continuation line, which starts with a blank (how the "
+                       "pieces of a body split over lines are joined is white space only, and not compared)"]
     acc = core.pmap(cond_case, _cond_jobs(nmax, depth), chunk=64, budget_s=120, label="C08/cond")
     ctx.add_family("conditionals", acc, max_directives=nmax, nesting=depth)
     smax, sdepth = (8, 3) if q else (10, 3)
     sacc0 = core.pmap(cond_case, _cond_jobs(smax, sdepth, STRUCT), chunk=64, budget_s=120, label="C08/struct")
     ctx.add_family("conditional_structure", sacc0, max_directives=smax, nesting=sdepth)
+    fmax = 4 if q else 5
+    facc = core.pmap(forms_case, _cond_jobs(fmax, 2, FORMS), chunk=32, budget_s=120, label="C08/forms")
+    ctx.add_family("directive_forms", facc, max_directives=fmax, nesting=2, init_sets=len(FORMS_INIT),
+                   what="redefinition without #undef; #if / #elif / #define NAME / #define NAME(x) / #undef continued with a "
+                        "backslash (with and without a blank before it); paths of <= %d directives also run through GNU cpp "
+                        "(active lines and final table)" % GNU_FORMS_MAX)
+    pacc = core.pmap(include_path_case, list(include_path_jobs()), chunk=8, budget_s=120, label="C08/paths")
+    ctx.add_family("include_paths", pacc, spellings=len(PATH_SPELLINGS), writings=len(PATH_WRITINGS), places=len(PATH_PLACES),
+                   what="one or two #include of headers in the source's directory, one and two directories below, spelled "
+                        "with ./ and ../; headers that include a neighbour; every case also run through GNU cpp")
     ctx.states = len(acc.states | sacc0.states)
     ctx.transitions = acc.counters.get("transitions", 0) + sacc0.counters.get("transitions", 0)
     ctx.traces_validated = acc.counters.get("paths_replayed", 0) + sacc0.counters.get("paths_replayed", 0)
@@ -491,16 +729,20 @@ def replay(rec):
     if rec["family"] == "includes":
         include_case(tuple(c["combo"]), acc)
         return [v.to_json("C08") for v in acc.violations] or None
-    if rec["family"] in ("conditionals", "expression_values"):
+    if rec["family"] == "include_paths":
+        include_path_case((c["job"][0], c["job"][1], tuple(c["job"][2])), acc)
+        return [v.to_json("C08") for v in acc.violations] or None
+    if rec["family"] in ("conditionals", "conditional_structure", "expression_values", "directive_forms"):
         lines, defs = c["lines"], c["defs"]
-        ref_active, ref_defs = refcpp.run(lines, defs)
-        names, got_defs, _, skipped = impl_run(lines, defs)
-        want = {f"v_{k}" for k, ln in enumerate(lines) if ln.startswith("integer :: v_") and ref_active[k]}
-        all_v = {f"v_{k}" for k, ln in enumerate(lines) if ln.startswith("integer :: v_")}
-        region_got = {v for v in all_v if int(v[2:]) not in skipped}
-        if region_got != want or (names & all_v) != want or not table_equal(ref_defs, got_defs):
-            return {"expected_active": sorted(want), "regions": sorted(region_got), "indexed": sorted(names & all_v),
-                    "ref_table": ref_defs, "table": got_defs}
+        ref_active, ref_defs = refcpp.run(lines, defs, redefine=c.get("redefine", False))
+        bad = judge(lines, defs, ref_active, ref_defs)
+        if bad:
+            return {"obs": bad[0], "expected": bad[1], "observed": bad[2]}
         return None
-    _subst_check(rec["family"], rec["tags"].get("kind", "object"), "", c["lines"], c["use_line"], acc)
+    if c.get("table"):
+        _redefinition_table(rec["family"][len("substitution_"):], rec["tags"].get("kind", "object"), c["lines"], c.get("headers"),
+                            {}, acc)
+    else:
+        _subst_check(rec["family"], rec["tags"].get("kind", "object"), "", c["lines"], c["use_line"], acc,
+                     headers=c.get("headers"), tag=c.get("tag", "subst"))
     return [v.to_json("C08") for v in acc.violations] or None
